@@ -258,7 +258,9 @@ func (w *world) markingReordersStoredPDR() {
 	if h == nil {
 		return
 	}
-	p13 := sysh.PdrIE{ID: 13, Prec: 4294967295, Src: u8p(1), UE: pdrs[1].UE, Sdf: strp("permit out tcp from any 443 to assigned"), Far: 13, Qers: []uint32{13}}
+	// (a filter no rule of the session uses: two rules with one match key are an ambiguous rule set, outside the envelope)
+	f13 := "permit out udp from 172.16.9.0/24 4500 to assigned"
+	p13 := sysh.PdrIE{ID: 13, Prec: 4294967295, Src: u8p(1), UE: pdrs[1].UE, Sdf: strp(f13), Far: 13, Qers: []uint32{13}}
 	w.mod(0, h.up, modReq{cp: []sysh.PdrIE{p13}, cf: []sysh.FarIE{{ID: 13, Act: 1}}, cq: []sysh.QerIE{{ID: 13, Qfi: 7, Mbr: [2]uint64{6183, 5}}}}, "scripted-reorder")
 	p1 := pdrs[0]
 	p1.Prec = 65535
